@@ -52,6 +52,37 @@ claim("C02", "E1",
       "DESIGN.md section 3")
 
 
+claim("C05", "E3+E5",
+      "static analysis: type-resolved error-discard census over MIR (Engler-style error discipline) + sibling-table agreement of the font assembly tables",
+      "Static decision of two structural necessary conditions of 'every emitted font is well-formed': (a) no serialisation or compile error is dropped "
+      "between a job's table value and the bytes handed to the font builder, for every function reachable from the entry points (each of the "
+      "type-resolved discard sites is audited or reported; the to_bytes().ok() defect that produced a font without a name table was found this way and "
+      "repaired); (b) TABLES_TO_MERGE, font::has, font::bytes_for and FontWork::read_access agree arm by arm, list the required tables, and every table "
+      "slot that is written is consumed. Error paths are taken only by unusual inputs, which is why tests do not settle this; the rule is over all call "
+      "sites. It does NOT decide checksums, offsets, cross-table index ranges or glyph-count agreement - those are values produced by write-fonts.",
+      "Trusted: rustc MIR, the extractor, the audited allow table tables/e3_allow.json (function + idiom + error type + count + reason), the OpenType "
+      "required-table list. Unrecognised discard idioms fail closed only for the enumerated Result methods; a hand-written match that binds the "
+      "error and ignores it is not detected.",
+      "DESIGN.md sections 5.1, 5.3")
+
+claim("C14", "E5",
+      "static analysis: structural rules over the file-name derivation (match-arm exhaustiveness, literal distinctness, format-spec scan from the AST), serde attribute census, restore-path call confinement",
+      "Static decision of the structural clauses of C14 only (P1-P4): distinct work-id variants map to distinct file names at the variant level, no "
+      "lossy (precision) formatting in a persisted file name, no undocumented serde(skip) on persisted types, disk reads confined to the restore path. "
+      "These are necessary conditions: breaking any of them makes two items share a file or lose a field on read-back for some input. Round-trip "
+      "value equality, byte-identity of the font with --emit-ir and string_to_filename injectivity are value-level and NOT decided.",
+      "Trusted: rustc MIR and AST (format_args placeholders are read from the expanded AST), tables/e5_tables.json (documented session-only fields).",
+      "DESIGN.md section 5.3")
+
+claim("C20", "E5",
+      "static analysis: call-graph dominator (single pipeline) over the resolved whole-program call graph",
+      "Static decision of one clause of C20: the CLI entry point and the library entry point reach scheduler and context construction through one common "
+      "function (a call-graph dominator of Workload::new, Workload::exec and both Context::new_root), and nothing else constructs them. A second "
+      "pipeline is how the two entry points would drift apart. Container equivalence and formatting insensitivity are parser semantics and NOT decided.",
+      "Trusted: rustc MIR and the call graph (CHA for trait objects); dominators are computed by node removal over the reachable graph.",
+      "DESIGN.md section 5.3 (Q1)")
+
+
 def main():
     commits = []
     try:
@@ -68,13 +99,15 @@ def main():
         "hooks": {
             "guard": "fontc_verif",
             "enable": "no hooks are needed: every check analyses /repo's current source through a rustc_private driver injected with RUSTC_WORKSPACE_WRAPPER under `cargo +nightly check`; nothing in /repo is instrumented. source_commits lists only unguarded `fix:` repairs of genuine defects.",
-            "baseline_off_cmd": "cd /repo && cargo test --workspace --no-fail-fast --offline",
+            "baseline_off_cmd": "cd /repo && cargo nextest run --workspace --no-fail-fast --tool-config-file pb:/w/lib/nextest.toml --profile pb --test-threads 8 --offline",
             "source_commits": commits,
             "add_only": True,
         },
         "engines": [
             {"name": "driver", "path": "driver/", "serves_properties": sorted(CLAIMS), "kind_free_text": "rustc_private fact extractor: MIR-lite, ADTs, impls, statics, format specs per crate (no verdicts)"},
             {"name": "E1", "path": "rules/e1.py", "serves_properties": ["C02", "C01"], "kind_free_text": "job effects + forced happens-before (static analysis over MIR facts)"},
+            {"name": "E3", "path": "rules/e3.py", "serves_properties": ["C05", "C15"], "kind_free_text": "error discipline: type-resolved discard census"},
+            {"name": "E5", "path": "rules/e5.py", "serves_properties": ["C05", "C13", "C14", "C20"], "kind_free_text": "sibling agreement and layering rules (table assembly, file names, pipeline dominator, cursor ownership)"},
         ],
         "checks": [CLAIMS[k] for k in sorted(CLAIMS)],
         "notes": "Technique family: static analysis only. Every verdict is computed from /repo's current source (type-checked MIR via the driver, Cargo manifests); no check runs fontc, its tests, a fuzzer or a solver. exit 0 = held (KNOWN-FINDING lines for listed findings), exit 1 = VIOLATION lines, exit 2 = checker could not see the code. known_findings.json lists recorded findings and fixed defects.",
